@@ -15,9 +15,9 @@
      dsl τ i          the decoded slot of instruction i with the operands of τ
      plain τ i        the single step from τ neither faults, nor exits, nor transfers control
      dead             how many of the positions [fetch pc; latch 0; latch 1] are wrong-path:
-                      dead = k+1 > 0 means latch k holds the (on-path) barrier — a slot that is
-                      not plain — and everything younger is unconstrained.  Latch 3 is never
-                      wrong-path and never a barrier. *)
+                      dead = k+1 > 0 means latch k (k <= 2) holds the (on-path) barrier — a slot
+                      that is not plain — and everything younger is unconstrained.  Latch 3 is
+                      never wrong-path; a redirecting slot there has already flushed. *)
 From Coq Require Import Lia ZifyBool.
 From ArchSim Require Import Model.Base Model.Mem Model.Cache Model.Fmt Model.RV Model.Single
   Model.RVSplit Model.Pipe Proofs.WordLemmas Proofs.C01Step Proofs.SplitExec
@@ -67,6 +67,8 @@ Definition redirects (i : instr) (t : st) : bool :=
   | _ => false
   end.
 
+(* the step from t neither faults nor exits *)
+Definition okstep (t : st) : Prop := snd (single_pipeline_step t) = None /\ exitc (nxt t) = None.
 (* the step from t is an ordinary one: the next instruction is the sequential successor *)
 Definition plain (t : st) (i : instr) : Prop :=
   snd (single_pipeline_step t) = None /\ exitc (nxt t) = None /\ redirects i t = false.
@@ -104,6 +106,13 @@ Definition lv (live bar : Prop) (t : st) (l : latch) (C : st -> slot -> Prop) : 
                       (bar -> ~ plain t (sl_instr x)) /\ (~ bar -> plain t (sl_instr x))
   end.
 
+(* latch 3: always on path, its redirect (if any) already done; it neither faults nor exits *)
+Definition lv3 (t : st) (l : latch) : Prop :=
+  match l with
+  | None => True
+  | Some x => wf t /\ onp t x /\ Mok t x /\ okstep t
+  end.
+
 Record InvAt (p : pstate) (s : st) (l0 l1 l2 l3 l4 : latch) (dead : nat) : Prop := mkInvAt {
   iv_lat : lat p = [l0; l1; l2; l3; l4];
   iv_shape : Shape no_icache p;
@@ -115,7 +124,7 @@ Record InvAt (p : pstate) (s : st) (l0 l1 l2 l3 l4 : latch) (dead : nat) : Prop 
   iv_dead : (dead <= 3)%nat;
   iv_d1 : Dsh_latch l1;
   (* the slots, oldest first *)
-  iv_l3 : lv True False s l3 Mok;
+  iv_l3 : lv3 s l3;
   iv_l2 : lv True (dead = 3%nat) (adv l3 s) l2 Eok;
   iv_l1 : lv (dead <= 2)%nat (dead = 2%nat) (adv l2 (adv l3 s)) l1
              (fun t x => stalled p = None -> Dok t x);
@@ -152,3 +161,31 @@ Proof. unfold adv, ne. destruct (nonempty l); reflexivity. Qed.
 
 Lemma sigma_add a : forall b t, sigma (a + b) t = sigma b (sigma a t).
 Proof. induction a as [|a IH]; intros b t; cbn [sigma Nat.add]; [reflexivity|apply IH]. Qed.
+
+(** * Vocabulary of the refinement theorem *)
+(* addresses in latch 4 (WB output) after each step of the run, in order *)
+Definition some_addr (l : latch) : list Z := match l with Some x => [sl_addr x] | None => [] end.
+Fixpoint pipe_trace (fuel : nat) (p : pstate) : list Z :=
+  match fuel with
+  | O => []
+  | S k => if pipe_done p then []
+           else match pipe_step p with
+                | (_, Some _) => []
+                | (p', None) => some_addr (lat_at (lat p') 4) ++ pipe_trace k p'
+                end
+  end.
+(* the pcs at which the single-cycle run executed an instruction *)
+Fixpoint single_trace (fuel : nat) (s : st) : list Z :=
+  match fuel with
+  | O => []
+  | S k => if single_done s then []
+           else match single_pipeline_step s with
+                | (_, Some _) => []
+                | (s', None) => pc s :: single_trace k s'
+                end
+  end.
+
+(* agreement of the architectural state at the end of a run *)
+Definition arch_agree (p : pstate) (s : st) : Prop :=
+  regs (pst p) = regs s /\ ms (pst p) = ms s /\ out (pst p) = out s /\ exitc (pst p) = exitc s /\
+  bcount (pst p) = bcount s /\ pcount (pst p) = pcount s /\ icount (pst p) = icount s.
